@@ -137,7 +137,8 @@ Proof.
     rewrite (trim_chars_absent 34 _ H34). now apply strip_c_quoted.
 Qed.
 Lemma reading_value t s : scalar_reading t s ->
-  trim t = t /\ (if quoted_test t then slice t 1 (blen t - 1) else Some t) = Some s /\ (quoted_test t = true -> 2 <= blen t) /\ (quoted_test t = false -> s <> []).
+  trim t = t /\ (if quoted_test t then slice t 1 (blen t - 1) else Some t) = Some s /\ (quoted_test t = true -> 2 <= blen t) /\ (quoted_test t = false -> s <> [])
+  /\ (quoted_test t = true -> exists q, t = q :: s ++ [q]).
 Proof.
   intros [[Hp ->]|[Hd|Hs]].
   - unfold plain_scalar_ok in Hp. repeat (apply andb_true_iff in Hp as [Hp ?]).
@@ -149,7 +150,7 @@ Proof.
         cbn [existsb] in H34, H39; apply orb_false_iff in H34 as [H34 _]; apply orb_false_iff in H39 as [H39 _] end.
       match goal with H : (39 =? x) = false |- _ => rewrite H end.
       match goal with H : (34 =? x) = false |- _ => rewrite H end. reflexivity. }
-    rewrite Hq. split; [exact Ht|]. split; [reflexivity|]. split; [discriminate|]. intros _ ->. discriminate.
+    rewrite Hq. split; [exact Ht|]. split; [reflexivity|]. split; [discriminate|]. split; [intros _ ->; discriminate|discriminate].
   - unfold dq_scalar_inner in Hd. destruct (yquoted_inner 34 t) as [inner|] eqn:Eq; [|discriminate].
     destruct (has_byte 34 inner || has_byte 92 inner || has_byte 10 inner || has_byte 39 inner) eqn:Eb; [discriminate|]. injection Hd as <-.
     apply yquoted_inner_spec in Eq. subst t.
@@ -157,7 +158,7 @@ Proof.
     { unfold quoted_test. rewrite (ends_with_quoted 34 inner). cbn [starts_with]. cbn. reflexivity. }
     rewrite Hq. split; [apply trim_quoted|]. split.
     + exact (slice_inner _ 0 _ 34 34 inner (slice_whole _)).
-    + split; [|discriminate]. intros _. unfold blen. cbn [length]. rewrite app_length. cbn [length]. lia.
+    + split; [|split; [discriminate|intros _; now exists 34]]. intros _. unfold blen. cbn [length]. rewrite app_length. cbn [length]. lia.
   - unfold sq_scalar_inner in Hs. destruct (yquoted_inner 39 t) as [inner|] eqn:Eq; [|discriminate].
     destruct (has_byte 39 inner || has_byte 10 inner || has_byte 34 inner) eqn:Eb; [discriminate|]. injection Hs as <-.
     apply yquoted_inner_spec in Eq. subst t.
@@ -165,7 +166,7 @@ Proof.
     { unfold quoted_test. rewrite (ends_with_quoted 39 inner). cbn [starts_with]. cbn. reflexivity. }
     rewrite Hq. split; [apply trim_squoted|]. split.
     + exact (slice_inner _ 0 _ 39 39 inner (slice_whole _)).
-    + split; [|discriminate]. intros _. unfold blen. cbn [length]. rewrite app_length. cbn [length]. lia.
+    + split; [|split; [discriminate|intros _; now exists 39]]. intros _. unfold blen. cbn [length]. rewrite app_length. cbn [length]. lia.
 Qed.
 
 (* ---------- node level ---------- *)
@@ -413,9 +414,16 @@ Qed.
 
 (* ---------- pnpm-workspace.yaml: one catalog entry ---------- *)
 Definition nv (p : pkg) : bytes * bytes := (p_name p, p_version p).
+(* name, version, and: the bytes [start, end) of the document are the version *)
+Definition loc_ok (content : bytes) (p : pkg) : bool :=
+  match slice content (p_start p) (p_end p) with Some t => beq t (p_version p) && (p_start p <=? p_end p) | None => false end.
+Definition nvc (content : bytes) (p : pkg) : bytes * bytes * bool := (p_name p, p_version p, loc_ok content p).
+Definition tagl (l : list (bytes * bytes)) : list (bytes * bytes * bool) := map (fun e => (fst e, snd e, true)) l.
+Lemma tagl_app a b : tagl (a ++ b) = tagl a ++ tagl b.
+Proof. unfold tagl. apply map_app. Qed.
 Lemma pnpm_entry_spec content p k v : denote_ynode content p = YDPair k v -> (v = YNull \/ exists s, v = YStr s) ->
   exists pkgs, pnpm_entry content p = Some pkgs
-  /\ map nv pkgs = match v with YStr s => if beq s [] then [] else [(k, s)] | _ => [] end.
+  /\ map (nvc content) pkgs = tagl (match v with YStr s => if beq s [] then [] else [(k, s)] | _ => [] end).
 Proof.
   intros H Hv. destruct (pair_fields _ _ _ _ H) as [kn [Ck [Wk [Dk Hval]]]].
   destruct (wrap_scalar _ _ _ Wk Dk) as [tk [Tk Rk]].
@@ -425,12 +433,21 @@ Proof.
   - rewrite Cv. destruct Hv as [->|[s ->]]; [exfalso; exact (wrapper_not_null _ _ Wv Dv)|].
     destruct (wrap_scalar _ _ _ Wv Dv) as [tv [Tv Rv]].
     unfold node_plain_text. rewrite Tk. cbn [option_map bind]. rewrite (reading_name _ _ Rk). rewrite Tv. cbn [bind].
-    destruct (reading_value _ _ Rv) as [Ht [Hs [Hq Hne]]]. rewrite Ht. fold (quoted_test tv). cbv zeta.
+    destruct (reading_value _ _ Rv) as [Ht [Hs [Hq [Hne Hshape]]]]. rewrite Ht. fold (quoted_test tv). cbv zeta.
     rewrite Hs. cbn [bind]. destruct (beq s []) eqn:Es; [exists []; split; reflexivity|].
     destruct (quoted_test tv) eqn:Eq.
     + unfold quoted_pkg, pred_N. unfold node_text in Tv. pose proof (slice_length _ _ _ _ Tv) as Hl. specialize (Hq eq_refl).
-      destruct (n_eb vn =? 0) eqn:E0; [apply N.eqb_eq in E0; lia|]. cbn [bind option_map]. eexists. split; reflexivity.
-    + eexists. split; reflexivity.
+      destruct (n_eb vn =? 0) eqn:E0; [apply N.eqb_eq in E0; lia|]. cbn [bind option_map]. eexists. split; [reflexivity|].
+      cbn [map tagl fst snd]. unfold nvc, loc_ok. cbn [p_name p_version p_start p_end].
+      destruct (Hshape eq_refl) as [q Htv].
+      subst tv. rewrite (slice_inner _ _ _ _ _ _ Tv), beq_refl. cbn [andb].
+      assert ((n_sb vn + 1 <=? n_eb vn - 1) = true) as -> by (apply N.leb_le; unfold blen in Hl; cbn [length] in Hl; rewrite app_length in Hl; cbn [length] in Hl; lia).
+      reflexivity.
+    + eexists. split; [reflexivity|]. cbn [map tagl fst snd]. unfold nvc, loc_ok. cbn [p_name p_version p_start p_end].
+      unfold node_text in Tv. rewrite Tv. injection Hs as <-. rewrite beq_refl. cbn [andb].
+      assert ((n_sb vn <=? n_eb vn) = true) as ->.
+      { unfold slice in Tv. destruct ((n_sb vn <=? n_eb vn) && (n_eb vn <=? blen content)) eqn:E; [|discriminate]. now apply andb_true_iff in E as [E _]. }
+      reflexivity.
 Qed.
 
 (* ---------- pnpm: catalogs ---------- *)
@@ -476,7 +493,7 @@ Definition entry_decl (e : bytes * yval) : list (bytes * bytes) :=
 Lemma block_pairs_entries content ch : forall l, ypairs_of (ykids_of content ch) = Some l ->
   pairs_kind yk_block_mapping_pair (ykids_of content ch) = true ->
   forallb (fun e : bytes * yval => match snd e with YStr _ | YNull => true | _ => false end) l = true ->
-  exists pkgs, concat_opt (pnpm_mapping_step content) ch = Some pkgs /\ map nv pkgs = flat_map entry_decl l.
+  exists pkgs, concat_opt (pnpm_mapping_step content) ch = Some pkgs /\ map (nvc content) pkgs = tagl (flat_map entry_decl l).
 Proof.
   induction ch as [|x t IH]; intros l Hl Hk Hs.
   - cbn in Hl. injection Hl as <-. exists []. split; reflexivity.
@@ -488,13 +505,13 @@ Proof.
       destruct (pnpm_entry_spec _ _ _ _ Dx Hv) as [p1 [E1 M1]].
       cbn [concat_opt]. unfold pnpm_mapping_step at 1. destruct (kind_tests x) as [T1 T2].
       unfold kind_is in Hkx. apply beq_eq in Hkx. assert (classify (n_kind x) = KPair false) as Hc by (rewrite Hkx; reflexivity).
-      rewrite T2, T1, Hc, E1, E2. exists (p1 ++ p2). split; [reflexivity|]. rewrite map_app, M1, M2. reflexivity.
+      rewrite T2, T1, Hc, E1, E2. exists (p1 ++ p2). split; [reflexivity|]. cbn [flat_map]. rewrite ?tagl_app, map_app, M1, M2. reflexivity.
     + destruct (IH l Hl' Hkt Hs) as [p2 [E2 M2]]. cbn [concat_opt]. rewrite (tok_step _ _ Dx), E2. exists p2. split; [reflexivity|exact M2].
 Qed.
 (* the value node of a catalog key *)
 Lemma pnpm_mapping_wrapper content vn v : is_wrapper vn = true -> denote_ynode content vn = YDVal v ->
   is_catalog v = true -> is_flow v = false ->
-  exists pkgs, pnpm_mapping content vn = Some pkgs /\ map nv pkgs = catalog_entries v.
+  exists pkgs, pnpm_mapping content vn = Some pkgs /\ map (nvc content) pkgs = tagl (catalog_entries v).
 Proof.
   intros Hw Hd Hc Hf. destruct (wrapper_inv _ _ _ Hw Hd) as [pre [c [post [Hch [Hp [Hq [Dc Hcl]]]]]]].
   rewrite pnpm_mapping_eq, Hch.
@@ -659,7 +676,7 @@ Proof. reflexivity. Qed.
 Definition group_ok (g : bytes * yval) : bool := is_catalog (snd g) && negb (is_flow (snd g)).
 Lemma named_groups content ch : forall groups, ypairs_of (ykids_of content ch) = Some groups ->
   pairs_kind yk_block_mapping_pair (ykids_of content ch) = true -> forallb group_ok groups = true ->
-  exists pkgs, concat_opt (named_pair_step content) ch = Some pkgs /\ map nv pkgs = flat_map (fun g : bytes * yval => catalog_entries (snd g)) groups.
+  exists pkgs, concat_opt (named_pair_step content) ch = Some pkgs /\ map (nvc content) pkgs = tagl (flat_map (fun g : bytes * yval => catalog_entries (snd g)) groups).
 Proof.
   induction ch as [|x t IH]; intros groups Hl Hk Hs.
   - cbn in Hl. injection Hl as <-. exists []. split; reflexivity.
@@ -673,7 +690,7 @@ Proof.
       destruct Hval as [[-> Cv]|[vn [Cv [Wv Dv]]]].
       * rewrite Cv, E2. exists p2. split; [reflexivity|]. cbn [flat_map snd catalog_entries app]. exact M2.
       * rewrite Cv. destruct (pnpm_mapping_wrapper _ _ _ Wv Dv Hc Hf) as [p1 [E1 M1]]. rewrite E1, E2. exists (p1 ++ p2). split; [reflexivity|].
-        rewrite map_app, M1, M2. reflexivity.
+        cbn [flat_map]. rewrite ?tagl_app, map_app, M1, M2. reflexivity.
     + destruct (IH groups Hl' Hkt Hs) as [p2 [E2 M2]]. cbn [concat_opt]. unfold named_pair_step at 1. destruct (kind_tests x) as [T1 _].
       destruct (ytok_node _ _ Dx) as [Hc _]. rewrite T1, Hc, E2. exists p2. split; [reflexivity|exact M2].
 Qed.
@@ -687,7 +704,7 @@ Proof.
 Qed.
 Lemma pnpm_named_wrapper content vn v : is_wrapper vn = true -> denote_ynode content vn = YDVal v ->
   is_flow v = false -> groups_ok v = true ->
-  exists pkgs, pnpm_named content vn = Some pkgs /\ map nv pkgs = groups_decl v.
+  exists pkgs, pnpm_named content vn = Some pkgs /\ map (nvc content) pkgs = tagl (groups_decl v).
 Proof.
   intros Hw Hd Hf Hg. destruct (wrapper_inv _ _ _ Hw Hd) as [pre [c [post [Hch [Hp [Hq [Dc Hcl]]]]]]].
   rewrite pnpm_named_eq, Hch.
@@ -757,7 +774,7 @@ Proof.
 Qed.
 Lemma top_pairs content ch : forall top, ypairs_of (ykids_of content ch) = Some top ->
   pairs_kind yk_block_mapping_pair (ykids_of content ch) = true -> forallb top_ok top = true ->
-  exists pkgs, concat_opt (walk_pnpm content) ch = Some pkgs /\ map nv pkgs = flat_map top_decl top.
+  exists pkgs, concat_opt (walk_pnpm content) ch = Some pkgs /\ map (nvc content) pkgs = tagl (flat_map top_decl top).
 Proof.
   induction ch as [|x t IH]; intros top Hl Hk Hs.
   - cbn in Hl. injection Hl as <-. exists []. split; reflexivity.
@@ -776,7 +793,7 @@ Proof.
         destruct Hval as [[-> Cv]|[vn [Cv [Wv Dv]]]].
         -- rewrite Cv, Et. exists p2. split; [reflexivity|]. cbn [catalog_entries app]. exact M2.
         -- rewrite Cv. destruct (pnpm_mapping_wrapper _ _ _ Wv Dv Hc Hf) as [p1 [Ep Mp]]. rewrite Ep, Et. exists (p1 ++ p2). split; [reflexivity|].
-           rewrite map_app, Mp, M2. reflexivity.
+           cbn [flat_map]. rewrite ?tagl_app, map_app, Mp, M2. reflexivity.
       * apply andb_true_iff in Hsx as [Hf Hg]. apply negb_true_iff in Hf.
         rewrite walk_pnpm_eq. destruct (kind_tests x) as [T1 _]. rewrite T1, Hcl, Ck, Hname. cbn [bind].
         change pnpm_catalog_key with w_catalog. change pnpm_catalogs_key with w_catalogs. rewrite E1, E2.
@@ -784,7 +801,7 @@ Proof.
         -- rewrite Cv. match goal with H : concat_opt (walk_pnpm content) t = Some p2 |- _ => rewrite H end. exists p2. split; [reflexivity|]. cbn [groups_decl app]. exact M2.
         -- rewrite Cv. destruct (pnpm_named_wrapper _ _ _ Wv Dv Hf Hg) as [p1 [Ep Mp]]. rewrite Ep.
            match goal with H : concat_opt (walk_pnpm content) t = Some p2 |- _ => rewrite H end. exists (p1 ++ p2). split; [reflexivity|].
-           rewrite map_app, Mp, M2. reflexivity.
+           cbn [flat_map]. rewrite ?tagl_app, map_app, Mp, M2. reflexivity.
       * apply negb_true_iff in Hsx.
         assert (walk_pnpm content x = Some []) as ->.
         { apply pnpm_quiet. rewrite Dx. cbn [quiet_den]. split; [|now apply quiet_catalog]. unfold pnpm_keys. cbn [existsb]. now rewrite E1, E2. }
@@ -839,7 +856,7 @@ Qed.
 Lemma not_pair_class n : (forall fl, classify (n_kind n) <> KPair fl) -> kind_is k_block_mapping_pair n = false.
 Proof. intros H. destruct (kind_tests n) as [T _]. rewrite T. destruct (classify (n_kind n)) as [| | | | |fl|[|]|fl| | | |]; try reflexivity. exfalso. now apply (H false). Qed.
 Lemma pnpm_top content : forall n top, denote_ynode content n = YDVal (YMap false top) -> forallb top_ok top = true ->
-  exists pkgs, walk_pnpm content n = Some pkgs /\ map nv pkgs = flat_map top_decl top.
+  exists pkgs, walk_pnpm content n = Some pkgs /\ map (nvc content) pkgs = tagl (flat_map top_decl top).
 Proof.
   induction n as [kd f sb eb r c m ch IHch] using node_ind'. intros top Dn Hok.
   set (n := Node kd f sb eb r c m ch) in *. pose proof (yden_class content n) as Y. rewrite Dn in Y.
@@ -862,7 +879,7 @@ Proof.
     exists pk. split; [|exact M]. apply concat_mid; [now apply (toks_walk_quiet content pnpm_keys _ (walk_pnpm_step content))|now apply (toks_walk_quiet content pnpm_keys _ (walk_pnpm_step content))|exact E].
 Qed.
 Lemma pnpm_doc content : forall n top, denote_ynode content n = YDDoc (YMap false top) -> forallb top_ok top = true ->
-  exists pkgs, walk_pnpm content n = Some pkgs /\ map nv pkgs = flat_map top_decl top.
+  exists pkgs, walk_pnpm content n = Some pkgs /\ map (nvc content) pkgs = tagl (flat_map top_decl top).
 Proof.
   induction n as [kd f sb eb r c m ch IHch] using node_ind'. intros top Dn Hok.
   set (n := Node kd f sb eb r c m ch) in *. pose proof (yden_class content n) as Y. rewrite Dn in Y.
@@ -882,7 +899,7 @@ Proof.
 Qed.
 Theorem pnpm_exact content root v :
   denote_yaml content root = Some v -> pnpm_shape_ok v = true -> pnpm_known v = false ->
-  exists pkgs, walk_pnpm content root = Some pkgs /\ map nv pkgs = declared_pnpm v.
+  exists pkgs, walk_pnpm content root = Some pkgs /\ map (nvc content) pkgs = tagl (declared_pnpm v).
 Proof.
   unfold denote_yaml. intros H Hs Hk. destruct (denote_ynode content root) eqn:Dr; try discriminate. injection H as ->.
   destruct v as [s| |fl top|fl l].
@@ -900,4 +917,28 @@ Proof.
     apply forallb_forall. intros g Hgin. rewrite forallb_forall in Hs. unfold group_ok. rewrite (Hs g Hgin). cbn [andb].
     destruct (is_flow (snd g)) eqn:Eg; [|reflexivity]. assert (existsb (fun g0 : bytes * yval => is_flow (snd g0)) groups = true) as C by (apply existsb_exists; eauto). congruence.
   - cbn [pnpm_known] in Hk. exists []. split; [|reflexivity]. apply pnpm_quiet. rewrite Dr. now apply quiet_catalog.
+Qed.
+
+(* the located projection carries both facts *)
+Lemma located_split content pkgs : forall D, map (nvc content) pkgs = tagl D ->
+  map nv pkgs = D /\ Forall (fun p => loc_ok content p = true) pkgs.
+Proof.
+  induction pkgs as [|p t IH]; intros [|d D] H; try discriminate.
+  - split; [reflexivity|constructor].
+  - cbn [map tagl] in H. injection H as H1 H2 H3 H4. destruct (IH D H4) as [A B]. split.
+    + cbn [map]. unfold nv at 1. rewrite H1, H2, A. now destruct d.
+    + constructor; assumption.
+Qed.
+Theorem pnpm_exact_nv content root v :
+  denote_yaml content root = Some v -> pnpm_shape_ok v = true -> pnpm_known v = false ->
+  exists pkgs, walk_pnpm content root = Some pkgs /\ map nv pkgs = declared_pnpm v.
+Proof. intros H1 H2 H3. destruct (pnpm_exact content root v H1 H2 H3) as [pkgs [E M]]. exists pkgs. split; [exact E|]. exact (proj1 (located_split _ _ _ M)). Qed.
+Theorem pnpm_locations content root v pkgs :
+  denote_yaml content root = Some v -> pnpm_shape_ok v = true -> pnpm_known v = false -> walk_pnpm content root = Some pkgs ->
+  forall p, In p pkgs -> slice content (p_start p) (p_end p) = Some (p_version p) /\ p_start p <= p_end p.
+Proof.
+  intros H1 H2 H3 W p Hin. destruct (pnpm_exact content root v H1 H2 H3) as [q [E M]]. rewrite W in E. injection E as <-.
+  destruct (located_split _ _ _ M) as [_ F]. rewrite Forall_forall in F. specialize (F p Hin). unfold loc_ok in F.
+  destruct (slice content (p_start p) (p_end p)) as [t|]; [|discriminate]. apply andb_true_iff in F as [F1 F2]. apply beq_eq in F1. apply N.leb_le in F2.
+  subst t. now split.
 Qed.
